@@ -55,7 +55,7 @@ CHECKS = {
  "C20": ("exploration", "differential runtime monitor: each verifier gadget is instantiated in a small circuit, run, and its outputs compared with native p3-commit/p3-fri/p3-field computations over a parameter grid",
          "16 gadgets x 4 configurations; deterministic grid over sizes/shifts/chunks/periods/lengths/exponents/indices plus random tuples, including degenerate sizes and in-domain points.",
          "DESIGN.md §3 C20", TRUSTED),
- "C09": ("exploration", "runtime bus monitor: every WitnessChecks tuple of every row of the real Const/Public/ALU tables is replayed from the real AIRs and matrices of honest runs of generated programs and aggregated per witness slot; cross-checked against upstream's lookup debugger; second stream: honest executions of row programs over the Poseidon permutation tables (Merkle chains, index-accumulator exposure, tables of exactly 2^k rows) are proven and verified, a verifier lookup error on an honest run is an unbalanced bus",
+ "C09": ("exploration", "runtime bus monitor: every WitnessChecks tuple of every row of the real Const/Public/ALU tables is replayed from the real AIRs and matrices of honest runs of generated programs and aggregated per witness slot; cross-checked against upstream's lookup debugger (every third program with recompose tables, in both table flavours at 1-3 lanes, and all programs of a directed family dense in recompose rows); second stream: honest executions of row programs over the Poseidon permutation tables (Merkle chains, index-accumulator exposure, tables of exactly 2^k rows) are proven and verified, a verifier lookup error on an honest run is an unbalanced bus",
          "Per-slot invariants (one creator, creator multiplicity == reads, equal values, no floating operand) observed on honest executions of generated programs under random packings. Slots touched only by plugin tables are judged by the upstream debugger cross-check.",
          "DESIGN.md §3 C09", TRUSTED),
  "C11": ("fault_enumeration", "runtime monitor over explicit trace rows: the real AIR constraints (incl. bus tuples) are evaluated on valid rows and on every single-cell perturbation and compared with an independent evaluation of the operation's relation in native field arithmetic",
